@@ -77,6 +77,6 @@ package remember
 //@
 //@ func (*Remember).Init
 //@   property C06 C07
-//@   ensures[C06] registered_reset: emits Events.Register("After", EventRecoverEnd, ?h) :: fname(h) == "(*Remember).AfterPasswordReset"
+//@   ensures[C06,C07] registered_reset: emits Events.Register("After", EventRecoverEnd, ?h) :: fname(h) == "(*Remember).AfterPasswordReset"
 //@   ensures[C07] registered_auth: (emits Events.Register("After", EventAuth, ?h) :: fname(h) == "(*Remember).RememberAfterAuth") &&
 //@       (emits Events.Register("After", EventOAuth2, ?h2) :: fname(h2) == "(*Remember).RememberAfterAuth")
